@@ -18,6 +18,11 @@ from mc import sched
 from mc.runner import HarnessError
 
 
+class PoolAbort(BaseException):
+    """machinery failure inside the controlled pool; a BaseException so that the code under test (which
+    collects task failures with ``except Exception``) cannot swallow it"""
+
+
 class _Fut:
     def __init__(self, pool: "_Pool") -> None:
         self._pool = pool
@@ -26,7 +31,9 @@ class _Fut:
     def result(self, timeout: Optional[float] = None) -> Any:
         self._pool._run()
         if self._res is None:
-            raise HarnessError("controlled pool: task did not finish")
+            ex = self._pool.owner._ex
+            raise PoolAbort("controlled pool: task did not finish (%s)" % (
+                (ex.error if ex is not None and ex.error else "deadlock" if ex is not None and ex.deadlock else "aborted")))
         kind, val = self._res
         if kind == "exc":
             raise val
@@ -56,7 +63,7 @@ class _Pool:
 
     def submit(self, fn, *a, **kw) -> _Fut:
         if self.ran:
-            raise HarnessError("controlled pool: submit after the workers ran")
+            raise PoolAbort("controlled pool: submit after the workers ran")
         f = _Fut(self)
         self.fns.append(lambda: fn(*a, **kw))
         self.futs.append(f)
@@ -70,7 +77,7 @@ class _Pool:
         if n == 0:
             return
         if self.max_workers is not None and n > int(self.max_workers):
-            raise HarnessError("controlled pool: %d tasks on %r workers (the driver must keep tasks <= workers)" % (n, self.max_workers))
+            raise PoolAbort("controlled pool: %d tasks on %r workers (the driver must keep tasks <= workers)" % (n, self.max_workers))
         ex = sched.Execution(n, self.owner._prefix, self.owner.files, strict=self.owner._strict)
 
         def mk(i):
@@ -109,7 +116,7 @@ class PoolExplorer:
     def _factory(self, max_workers=None, thread_name_prefix="", **kw):
         self._pools += 1
         if self._pools > 1:
-            raise HarnessError("controlled pool: the call created more than one pool")
+            raise PoolAbort("controlled pool: the call created more than one pool")
         return _Pool(self, max_workers)
 
     def run_one(self, call: Callable[[], Any], prefix, strict: bool = True):
@@ -119,6 +126,11 @@ class PoolExplorer:
         self.par_module.ThreadPoolExecutor = self._factory
         try:
             val = call()
+        except PoolAbort as e:
+            ex = self._ex
+            if ex is not None and ex.deadlock and not ex.error:
+                return ex, None  # a deadlock of the workers is an observation, reported by the caller
+            raise HarnessError(str(e))
         finally:
             self.par_module.ThreadPoolExecutor = old
         ex = self._ex
